@@ -59,6 +59,10 @@ func (w *vfWSConn) SendFragmented(parts ...string) error {
 
 func (w *vfWSConn) Close() { w.c.Close(websocket.StatusNormalClosure, "bye") }
 
+// CloseWith performs the closing handshake with the given status; it returns once the client has answered it (or the
+// library's own timeout has passed).
+func (w *vfWSConn) CloseWith(code int, reason string) { w.c.Close(websocket.StatusCode(code), reason) }
+
 type vfWSPeer struct {
 	ln            net.Listener
 	srv           *http.Server
